@@ -32,7 +32,7 @@ PROPS = {
                          'harness/c16.py: hex-float literal printing, grid scaling by 2^21',
                          'modelled not verified: numpy remainder (npy_divmod) semantics on (-1,2), written into PhaseFloat.fmod1 and compared bit for bit']),
     'C13': dict(module='c13', pfile='P_C13',
-                required=['C13_wf', 'C13_split', 'C13_trim', 'C13_trim_asis_refuted', 'C13_topup', 'C13_topup_asis_refuted'],
+                required=['C13_wf', 'C13_split', 'C13_trim', 'C13_trim_asis_refuted', 'C13_topup', 'C13_topup_halves', 'C13_topup_asis_refuted'],
                 trusted=[KERNEL, EXTRACTION,
                          'harness/c13.py: derivation of the oracle data (blocked attempts, labels, trim decision) from observable records; exact dyadic volumes exp(log_v)',
                          'modelled not verified: GaussianMixture clustering, MVEE construction of the halves, ellipsoids_overlap (all oracle data checked by the model step)']),
